@@ -244,7 +244,7 @@ class CSSVariablesDeclaration(cssutils.util._NewBase):
             - :exc:`~xml.dom.NoModificationAllowedErr`:
               Raised if this declaration is readonly is readonly.
         """
-        normalname = variableName
+        normalname = normalize(variableName)
         try:
             r = self._vars[normalname]
         except KeyError:
@@ -253,7 +253,7 @@ class CSSVariablesDeclaration(cssutils.util._NewBase):
             self.seq._readonly = False
             if normalname in self._vars:
                 for i, x in enumerate(self.seq):
-                    if x.value[0] == variableName:
+                    if 'var' == x.type and normalize(x.value[0]) == normalname:
                         del self.seq[i]
             self.seq._readonly = True
             del self._vars[normalname]
@@ -301,7 +301,7 @@ class CSSVariablesDeclaration(cssutils.util._NewBase):
 
                 if variableName in self._vars:
                     for i, x in enumerate(self.seq):
-                        if x.value[0] == variableName:
+                        if 'var' == x.type and normalize(x.value[0]) == variableName:
                             self.seq.replace(
                                 i, [variableName, v], x.type, x.line, x.col
                             )
